@@ -358,7 +358,7 @@ SCALES = [1e-9, 1e-6, 1e-3, 1.0, 1e3]
 def gen_round(rng, tier, force=None):
     force = force or {}
     nd = force.get("nd") or rng.choice([1, 1, 2, 2, 3, 3, 3, 4])
-    cap = 48 if tier == "quick" else 160
+    cap = 48 if tier == "quick" else 120
     while True:
         n = [rng.randint(1, 4 if tier == "quick" else 6) for _ in range(nd)]
         if rng.random() < 0.5:
@@ -432,7 +432,7 @@ def gen_round(rng, tier, force=None):
             i1[ax] = rng.randint(2, n[ax])
         subs.append(dict(name=name, ck=sck, i0=i0, i1=i1, flip=[rng.random() < 0.3 for _ in range(nd)]))
     nvdim = rng.choice([1, 1, 1, 2, 3, 3, 3, 4, 5, 6, 11])
-    if math.prod(n) * nvdim > 4 * cap:
+    if math.prod(n) * nvdim > (4 if tier == "quick" else 2) * cap:
         nvdim = 1
     vdims = None
     if rng.random() < 0.45:
@@ -568,7 +568,7 @@ def buildable(rc):
 
 def generate(rng, tier):
     cases = []
-    nround = 330 if tier == "quick" else 3600
+    nround = 330 if tier == "quick" else 4000
     want = nround
     tries = 0
     # the four corner-type combinations, with fractional subregion corners where the cell allows
@@ -592,7 +592,7 @@ def generate(rng, tier):
             cases.append(rc)
             want -= 1
     # files written by this module: current layout (well-formed and malformed) and legacy layout
-    nfor = 110 if tier == "quick" else 1200
+    nfor = 110 if tier == "quick" else 1400
     k = 0
     tries = 0
     while k < nfor and tries < 20 * nfor:
@@ -605,7 +605,7 @@ def generate(rng, tier):
         rc["defect"] = None if rng.random() < 0.4 else rng.choice(DEFECTS)
         cases.append(rc)
         k += 1
-    nleg = 80 if tier == "quick" else 800
+    nleg = 80 if tier == "quick" else 900
     for _ in range(nleg):
         cases.append(gen_legacy(rng, tier))
     cases.append(dict(kind="sample"))
@@ -750,9 +750,10 @@ def run_round(rc):
     if stb != "ok":
         rec.update(obs=dict(state=brief, read_error=back), oracle=["read-failed"], key=key + "/read-failed",
                    size=size_of(s0))
-        rec["coq"] = f"CRound {c_state(s0)} {g.opt(view, c_view)} None"
+        rec["coq"] = f"CRound false {c_state(s0)} {g.opt(view, c_view)} None"
         return rec
     g_, s1 = back
+    in_domain = not ({"unit-is-the-marker", "labels-absent-on-vector"} & set(rc.get("limit") or []))
     rec["oracle"] = oracle_round(rc, s0, s1, f, g_, s0_after)
     back_brief = {k: s1[k] for k in ("ck", "pmin", "pmax", "dims", "units", "tf", "n", "bc", "nvdim", "vdims", "unit",
                                      "dtype")}
@@ -760,7 +761,7 @@ def run_round(rc):
     rec.update(obs=dict(state=brief, back=back_brief, file_seen=view is not None,
                         table_dtype=None if not view or not view["subs"] else view["subs"]["tk"]),
                key=key, size=size_of(s0),
-               coq=f"CRound {c_state(s0)} {g.opt(view, c_view)} (Some {c_state(s1)})")
+               coq=f"CRound {g.b(in_domain)} {c_state(s0)} {g.opt(view, c_view)} (Some {c_state(s1)})")
     if rc.get("limit"):
         rec["obs"]["limit_probe"] = "+".join(rc["limit"])
         rec["tags"] = [LIMIT_TAGS[x] for x in rc["limit"]]
